@@ -14,7 +14,10 @@
 (*     period match only a component that begins with a literal period;     *)
 (*   - a component followed by a slash selects directories only;            *)
 (*   - results are relative, without duplicates, in ascending byte order;   *)
-(*     nothing matching gives the empty result.                             *)
+(*     nothing matching gives the empty result;                             *)
+(*   - a result is spelled with the separators of the pattern: an absolute  *)
+(*     pattern (pat.abs, the root standing for the scratch directory) gives *)
+(*     absolute paths, repeated slashes (pat.rep = 2) are kept as written.  *)
 (***************************************************************************)
 EXTENDS Integers, Sequences, SequencesExt, FiniteSets, TLC
 
@@ -56,6 +59,13 @@ Walk(fs, dir, comps, i, dirsOnly) ==
          IN  UNION {Walk(fs, Append(dir, n), comps, i + 1, dirsOnly) : n \in {m \in names : ok(m)}}
 
 Expected(fs, pat) == Walk(fs, <<>>, pat.comps, 1, pat.slash)
+
+(* the spelling of result path p (a sequence of names) under pattern pat *)
+SepOf(pat) == IF pat.rep = 2 THEN <<"/", "/">> ELSE <<"/">>
+RECURSIVE JoinNames(_, _)
+JoinNames(p, sep) == IF Len(p) = 0 THEN <<>> ELSE IF Len(p) = 1 THEN p[1] ELSE p[1] \o sep \o JoinNames(Tail(p), sep)
+Render(p, pat) == (IF pat.abs THEN <<"ROOT", "/">> ELSE <<>>) \o JoinNames(p, SepOf(pat)) \o (IF pat.slash THEN SepOf(pat) ELSE <<>>)
+ExpectedStrings(fs, pat) == {Render(p, pat) : p \in Expected(fs, pat)}
 
 (* an unusable pattern: a component that Pattern.tla does not accept as well-formed *)
 WellFormed(pat) == \A i \in 1..Len(pat.comps) : Literal(pat.comps[i])[1] \/ P!Parse(pat.comps[i]).st = "ok"
